@@ -109,11 +109,30 @@ func runC14(r *R) {
 	for i := 0; i < npeers; i++ {
 		scripts = append(scripts, genC14Peer(t, i, 7))
 	}
+	// burst class: one session idles on a large mailbox behind a stalled connection and then disconnects, while
+	// another changes every message twice (far more pending notifications than the IDLE channel holds)
+	burst := t.Choose(8) == 0
+	if burst {
+		idle := textCmd("p0x3", "IDLE")
+		idle.Cont = []string{"DONE"}
+		idle.StallFor = []time.Duration{2 * time.Minute, 10 * time.Minute}[t.Choose(2)]
+		idle.Hangup = t.Choose(3) != 0 // otherwise it sends DONE after the stall
+		scripts[0] = []rawCmd{textCmd("p0x1", `LOGIN "user" "pass"`), textCmd("p0x2", "SELECT INBOX"), idle}
+		wait := textCmd("p1x0", "IDLE") // lets the other session get into its IDLE first
+		wait.Cont = []string{"DONE"}
+		wait.IdleFor = 30 * time.Second
+		scripts[1] = []rawCmd{textCmd("p1x1", `LOGIN "user" "pass"`), textCmd("p1x2", "SELECT INBOX"), wait,
+			textCmd("p1x3", `STORE 1:* +FLAGS.SILENT (\Flagged)`), textCmd("p1x4", `STORE 1:* -FLAGS.SILENT (\Flagged)`),
+			textCmd("p1x5", "STATUS INBOX (MESSAGES)"), textCmd("p1x6", "LOGOUT")}
+	}
 	cfg := r.SchedConfig()
 	if cfg.SwitchPermille < 100 {
 		cfg.SwitchPermille = 100 + 100*t.Choose(5)
 	}
 	cfg.MaxSteps = 400000
+	if burst {
+		cfg.MaxSteps = 1500000
+	}
 	for i, sc := range scripts {
 		var names []string
 		for j := range sc {
@@ -125,12 +144,17 @@ func runC14(r *R) {
 	var log *logBuf
 	r.Sim(cfg, func() {
 		caps := defaultCaps([]int{0, 2, 3}[capsVariant])
-		env := newMemEnv(r, memOpts{caps: caps, mailboxes: map[string]int{"INBOX": 3, "Bravo": 2, "Charlie": 1}, insecureAuth: true})
+		inboxSize := 3
+		if burst {
+			inboxSize = 70
+			r.Probe("burst_class")
+		}
+		env := newMemEnv(r, memOpts{caps: caps, mailboxes: map[string]int{"INBOX": inboxSize, "Bravo": 2, "Charlie": 1}, insecureAuth: true})
 		log = env.log
 		var dones []chan struct{}
 		for i := 0; i < npeers; i++ {
 			cc := env.Connect(fmt.Sprintf("peer%d", i))
-			if slow && i%2 == 1 {
+			if (slow && i%2 == 1) || (burst && i == 0) {
 				// the server's writes towards this peer block as soon as 64 bytes are unread
 				r.Net.PeerOf(cc).SetSendBuffer(64)
 			}
